@@ -89,6 +89,21 @@ Proof.
   rewrite andb_false_r. reflexivity.
 Qed.
 
+(* undefined values exist (the hypotheses above are satisfiable): reading past
+   the end of the data, an occurrence that does not exist, division by a
+   run-time zero; and `or` recovers from them *)
+Example undef_sources :
+  let en := mkEnv [1; 2; 3] 3 (fun _ => [(1, 2)]) [] None (fun _ => false) (fun _ => VUndef) false in
+  let u := ERead (IK 1 false false) (EArith Add EFilesize (EInt 5)) in
+  eval en u = VUndef /\
+  eval en (EOffset (PId 0) (EInt 9)) = VUndef /\
+  eval en (EArith Div (EInt 1) (EArith Sub EFilesize (EInt 3))) = VUndef /\
+  eval en (ENot (ECmp Eq u (EInt 1))) = VUndef /\
+  eval en (EOr (ECmp Eq u (EInt 1)) (EBool true)) = VBool true /\
+  eval en (EAnd (ECmp Eq u (EInt 1)) (EBool true)) = VBool false /\
+  eval en (EDefined u) = VBool false.
+Proof. vm_compute. repeat split. Qed.
+
 Lemma defined_spec : forall en a, eval en (EDefined a) = VBool (negb (is_undef (eval en a))).
 Proof. reflexivity. Qed.
 
@@ -189,10 +204,6 @@ Section OfLaws.
 
   Definition of_items : list value :=
     map (fun i => pat_item (e_pm en i) ak (eval en a1) (eval en a2)) set.
-
-  Lemma existsb_map0 : forall (A B : Type) (g : A -> B) (p : B -> bool) (l : list A),
-    existsb p (map g l) = existsb (fun x => p (g x)) l.
-  Proof. intros. induction l as [|a t IH]; [reflexivity|]. cbn [map existsb]. rewrite IH. reflexivity. Qed.
 
   Lemma of_none q : eval en (EOf QNone q set ak a1 a2) = VBool (negb (existsb truthy of_items)).
   Proof. cbn [eval]. rewrite doc. unfold v_of, quantified. cbn [max_count]. apply loop_none. Qed.
@@ -412,6 +423,15 @@ Proof.
   - (* ECons *) intros e0 IHe es IHes en en' H. cbn [rename_list eval_list].
     rewrite (IHe _ _ H), (IHes _ _ H). reflexivity.
 Qed.
+
+(* the hypothesis is satisfiable: shifting every pattern identifier by one *)
+Example env_ren_example :
+  let pm := fun i : nat => match i with 0%nat => [(0, 2)] | _ => [] end in
+  let en := mkEnv [97; 98] 2 pm [] (Some 0%nat) (fun _ => false) (fun _ => VUndef) false in
+  let en' := mkEnv [97; 98] 2 (fun i => pm (Nat.pred i)) [] (Some 1%nat) (fun _ => false) (fun _ => VUndef) false in
+  env_ren S en en' /\
+  eval en' (rename S (EPat (PId 0) AAt (EInt 0) (EInt 0))) = VBool true.
+Proof. cbn zeta. split; [constructor; cbn; try reflexivity; split; reflexivity | reflexivity]. Qed.
 
 (* with the model of the implementation's fast path switched on, renaming
    invariance fails: the same `0 of ($a, $b)` is true when the two
